@@ -77,3 +77,8 @@ reg('C19', 'fault_enumeration', 'T (call-tree and fault-position enumerator)', '
     'Every invocation/callback tree of depth <= 3 and width <= 2 over two sandboxes is executed with no fault and with an abort injected at every argument-conversion, callback-body and result-conversion position (pairs in the thorough tier); the transition-hook log, the record payloads and the timing vectors are compared with the word a pure walk of the tree prescribes.',
     'mbox model backend under two ABIs (each realises three of the five conversion-fault kinds); aborts observed as exceptions; depth/width bounded.',
     'DESIGN.md section 3, C19')
+
+reg('C12', 'model_checking', 'H + T (history explorer + call-tree enumerator)', 'fixpoint exploration of registration histories + exhaustive call trees on the real code, log compared with a reference walk',
+    'Register/unregister histories over six callbacks are explored to the fixpoint of the slot assignment and in every state every registered callback is invoked from guest code with boundary values; all call trees of depth <= 3 / width <= 2 over two sandboxes are executed and the application-side log (function, sandbox reference, arguments) and the guest-side results are compared with a pure walk of the tree; six configurations (mbox lp32/wide, noop and dylib x library/embedder TLS).',
+    'Depth/width bounded; bundled backends are exercised at 63/64 table occupancy rather than through full histories.',
+    'DESIGN.md section 3, C12')
